@@ -4,7 +4,7 @@
  * sputc / sputb32 / swrite events (the byte codecs themselves are units stream.rt*).
  *   decode(encode(file)) == file: every block comes back with its state (BLK / CHG / REP), its hash and its parity position;
  *   the runs written partition the blocks of the file in order, each run homogeneous in state and contiguous in parity.
- * Bounded: files of at most NBLK blocks; hash size 16.
+ * Bounded: files of at most NBLK (2) blocks; hash size 4.
  */
 #include "portable.h"
 #include "support.h"
@@ -13,19 +13,20 @@
 #include "stream.h"
 #include "verif.h"
 
-#define NBLK 3
-#define NEV 64
+#define NBLK 2
+#define NEV 10
+#define HS 4
 
 struct verif_in {
 	block_off_t blockmax;
 	unsigned st[NBLK];
 	block_off_t ppos[NBLK];
-	unsigned char hash[NBLK * 16];
+	unsigned char hash[NBLK * HS];
 };
 VERIF_DECLARE_IN
 
 #ifdef VERIF_CBMC
-int BLOCK_HASH_SIZE = 16;
+int BLOCK_HASH_SIZE = HS;
 void log_fatal(const char *format, ...) { (void)format; }
 void log_tag(const char *format, ...) { (void)format; }
 void os_abort(void) { VERIF_ASSERT(0, "the reader accepts what the writer wrote"); __CPROVER_assume(0); }
@@ -35,7 +36,7 @@ void os_abort(void) { VERIF_ASSERT(0, "the reader accepts what the writer wrote"
 static unsigned g_n, g_r;
 static unsigned char g_kind[NEV];
 static uint32_t g_val[NEV];
-static unsigned char g_raw[NEV][16];
+static unsigned char g_raw[NEV * HS];
 
 static int w_putc(int c, STREAM *s) { (void)s; VERIF_ASSERT(g_n < NEV, "event log large enough"); g_kind[g_n] = 1; g_val[g_n] = (unsigned char)c; ++g_n; return 0; }
 static int w_putb32(uint32_t v, STREAM *s) { (void)s; VERIF_ASSERT(g_n < NEV, "event log large enough"); g_kind[g_n] = 2; g_val[g_n] = v; ++g_n; return 0; }
@@ -43,10 +44,10 @@ static int w_write(const void *data, unsigned size, STREAM *s)
 {
 	unsigned k;
 	(void)s;
-	VERIF_ASSERT(g_n < NEV && size == 16, "a hash is written with the configured hash size");
+	VERIF_ASSERT(g_n < NEV && size == HS, "a hash is written with the configured hash size");
 	g_kind[g_n] = 3;
-	for (k = 0; k < 16; ++k)
-		g_raw[g_n][k] = ((const unsigned char *)data)[k];
+	for (k = 0; k < HS; ++k)
+		g_raw[g_n * HS + k] = ((const unsigned char *)data)[k];
 	++g_n;
 	return 0;
 }
@@ -58,9 +59,9 @@ static int r_read(STREAM *s, void *data, unsigned size)
 {
 	unsigned k;
 	(void)s;
-	VERIF_ASSERT(g_r < g_n && g_kind[g_r] == 3 && size == 16, "the reader asks for a hash where the writer put one");
-	for (k = 0; k < 16; ++k)
-		((unsigned char *)data)[k] = g_raw[g_r][k];
+	VERIF_ASSERT(g_r < g_n && g_kind[g_r] == 3 && size == HS, "the reader asks for a hash where the writer put one");
+	for (k = 0; k < HS; ++k)
+		((unsigned char *)data)[k] = g_raw[g_r * HS + k];
 	++g_r;
 	return 0;
 }
@@ -125,8 +126,8 @@ void h_blockruns(void)
 		VERIF_ASSUME(IN.st[i] == BLOCK_STATE_BLK || IN.st[i] == BLOCK_STATE_CHG || IN.st[i] == BLOCK_STATE_REP);
 		VERIF_ASSUME(IN.ppos[i] < 0x7fffffff);
 		block_state_set((struct snapraid_block *)(WV + i * 64), IN.st[i]);
-		for (k = 0; k < 16; ++k)
-			((struct snapraid_block *)(WV + i * 64))->hash[k] = IN.hash[i * 16 + k];
+		for (k = 0; k < HS; ++k)
+			((struct snapraid_block *)(WV + i * 64))->hash[k] = IN.hash[i * HS + k];
 	}
 	ST.clear_past_hash = 0;
 	ST.opt.force_nocopy = 0;
@@ -159,8 +160,8 @@ void h_blockruns(void)
 			struct snapraid_block *b = (struct snapraid_block *)(RV + i * 64);
 			VERIF_ASSERT(block_state_get(b) == IN.st[i], "decode(encode) keeps the state of every block");
 			VERIF_ASSERT(g_alloc_pos[i] == IN.ppos[i], "decode(encode) keeps the parity position of every block");
-			for (k = 0; k < 16; ++k)
-				VERIF_ASSERT(b->hash[k] == IN.hash[i * 16 + k], "decode(encode) keeps the hash of every block");
+			for (k = 0; k < HS; ++k)
+				VERIF_ASSERT(b->hash[k] == IN.hash[i * HS + k], "decode(encode) keeps the hash of every block");
 		}
 	VERIF_CANARY();
 }
